@@ -15,6 +15,7 @@ QNAME = {"Aggregation": "asyncClient_processAggregationResponseQueue", "Extend":
 
 def run(prog, chk):
     v1_exclusive(prog, chk)
+    hmac_construction(prog, chk)
     _run(prog, chk)
 
 
@@ -410,3 +411,120 @@ def v1_exclusive(prog, chk):
             chk.ob("C06.v1excl", "%s[%s]" % (name, seq_name), r == want,
                    "a v1 PDU with %s parsed by the template interpreter with this template's flags: expected %s, source returns %s"
                    % (seq_name, hex(want), hex(r) if isinstance(r, int) else r), loc="src/ksi/tlv_template.c:%d" % T[name]["line"])
+
+
+def hmac_construction(prog, chk):
+    """RFC 2104 shape of hmac.c, evaluated over small abstract block sizes: key preparation (hash iff longer than the block, zero
+    padding), ipad / opad constants, inner and outer hashing sequence."""
+    from ksirules.interp import TOP, Interp, Ptr, succeed_model
+    chk.rule("C06.hmac", "HMAC construction: key preparation at the block-size boundary, pads, inner/outer sequence (RFC 2104)", floor=7)
+    fo = prog.fn("KSI_HmacHasher_open", "hmac.c")
+    cp, ap, kp, hp = [p["n"] for p in fo.params]
+    BLOCK, DIG = 4, [0xd1, 0xd2]
+    for klen in (1, 3, 4, 5, 9):
+        key = [0x61 + k for k in range(klen)]
+        inputs = {cp: Ptr("ctx"), ap: 1, kp: Ptr("KEY"), hp: Ptr("OUT")}
+        for k, v in enumerate(key):
+            inputs["KEY[%d]" % k] = v
+        for k, v in enumerate(DIG):
+            inputs["DIG[%d]" % k] = v
+        seq = []
+
+        def hadd(I, p, node, args):
+            seq.append(("add", args[1], args[2]))
+            return 0
+
+        def hclose(I, p, node, args):
+            seq.append(("close",))
+            I.write(p, lvalue_key(strip(node["a"][1])["e"], I.fn), Ptr("KEYHASH"))
+            return 0
+
+        def extract(I, p, node, args):
+            for j, val in ((1, 1), (2, Ptr("DIG")), (3, len(DIG))):
+                a = strip(node["a"][j])
+                if isinstance(a, dict) and a.get("k") == "un" and a["op"] == "&":
+                    I.write(p, lvalue_key(a["e"], I.fn), val)
+            return 0
+
+        def reset(I, p, node, args):
+            seq.append(("hmac-reset", args[0]))
+            return 0
+        ov = {"strlen": lambda I, p, n, a: klen if a[0] == Ptr("KEY") else TOP, "KSI_HashAlgorithm_getBlockSize": lambda I, p, n, a: BLOCK,
+              "KSI_getHashLength": lambda I, p, n, a: len(DIG), "KSI_malloc": lambda I, p, n, a: Ptr("HM"), "memset": lambda I, p, n, a: a[0],
+              "KSI_DataHasher_open": lambda I, p, n, a: (I.write(p, "HM->dataHasher", Ptr("DH")), 0)[1], "KSI_DataHasher_add": hadd,
+              "KSI_DataHasher_close": hclose, "KSI_DataHash_extract": extract, "KSI_HmacHasher_reset": reset}
+        I = Interp(fo, inputs=inputs, call_model=succeed_model(prog, ov), on_unknown="stop", prog=prog, loop_bound=BLOCK + 8)
+        paths = I.run()
+        chk.paths += len(paths)
+        inst = "HmacHasher_open[key of %d bytes, block of %d]" % (klen, BLOCK)
+        if len(paths) != 1 or paths[0].undetermined:
+            raise AnalysisBroken("KSI_HmacHasher_open: evaluation not determined for %s: %s" % (inst, [q.undetermined[:1] for q in paths]))
+        q = paths[0]
+        kprime = (DIG if klen > BLOCK else key) + [0] * BLOCK
+        kprime = kprime[:BLOCK]
+        pads = {}
+        for t in q.stores():
+            if t[1].startswith("HM->ipadXORkey[") or t[1].startswith("HM->opadXORkey["):
+                pads[t[1]] = t[2]
+        want = {}
+        for i in range(BLOCK):
+            want["HM->ipadXORkey[%d]" % i] = 0x36 ^ kprime[i]
+            want["HM->opadXORkey[%d]" % i] = 0x5c ^ kprime[i]
+        hashed = [s for s in seq if s[0] == "add" and s[1] == Ptr("KEY")]
+        okseq = (klen > BLOCK and len(hashed) == 1 and hashed[0][2] == klen and ("close",) in seq) or (klen <= BLOCK and not hashed and ("close",) not in seq)
+        ok = q.ret == 0 and pads == want and okseq and seq[-1:] == [("hmac-reset", Ptr("HM"))]
+        chk.ob("C06.hmac", inst, ok,
+               "expected K' = %s (the key %s), ipad/opad = 0x36/0x5c xor K' over the whole block, then the inner hash started; source: status %s, "
+               "key hashed %s, pads %s" % (["%02x" % x for x in kprime], "hashed, as it is longer than the block" if klen > BLOCK else "as it is, zero padded",
+                                           q.ret, bool(hashed), {k.split("->")[1]: "%02x" % v if isinstance(v, int) else v for k, v in sorted(pads.items())}),
+               loc=fo.loc(), fn=fo)
+    # inner / outer sequence
+    fr = prog.fn("KSI_HmacHasher_reset", "hmac.c")
+    fc = prog.fn("KSI_HmacHasher_close", "hmac.c")
+    for fn, want in ((fr, [("reset",), ("add", "ipadXORkey", "HM->blockSize")]),
+                     (fc, [("close", "INNER"), ("reset",), ("add", "opadXORkey", "HM->blockSize"), ("add", "INNERDIG", 2), ("close", "OUTER")])):
+        seq = []
+        closes = iter(["INNER", "OUTER"])
+
+        def hadd(I, p, node, args):
+            a1 = args[1].what if isinstance(args[1], Ptr) else args[1]
+            seq.append(("add", a1.replace("arr:", "").split("->")[-1] if isinstance(a1, str) else a1, args[2]))
+            return 0
+
+        def hclose(I, p, node, args):
+            nm = next(closes, "?")
+            seq.append(("close", nm))
+            I.write(p, lvalue_key(strip(node["a"][1])["e"], I.fn), Ptr(nm))
+            return 0
+
+        def extract(I, p, node, args):
+            src = args[0].what if isinstance(args[0], Ptr) else "?"
+            for j, val in ((2, Ptr(src + "DIG")), (3, 2)):
+                a = strip(node["a"][j])
+                if isinstance(a, dict) and a.get("k") == "un" and a["op"] == "&":
+                    I.write(p, lvalue_key(a["e"], I.fn), val)
+            return 0
+        inputs = {fn.params[0]["n"]: Ptr("HM"), "HM->ctx": Ptr("ctx"), "HM->dataHasher": Ptr("DH"), "HM->blockSize": Ptr("HM->blockSize"),
+                  "HM->ipadXORkey": Ptr("HM->ipadXORkey"), "HM->opadXORkey": Ptr("HM->opadXORkey")}
+        if len(fn.params) > 1:
+            inputs[fn.params[1]["n"]] = Ptr("OUT")
+        ov = {"KSI_DataHasher_reset": lambda I, p, n, a: (seq.append(("reset",)), 0)[1], "KSI_DataHasher_add": hadd, "KSI_DataHasher_close": hclose,
+              "KSI_DataHash_extract": extract, "KSI_DataHash_ref": lambda I, p, n, a: a[0]}
+        I = Interp(fn, inputs=inputs, call_model=succeed_model(prog, ov), on_unknown="stop", prog=prog)
+        paths = I.run()
+        chk.paths += len(paths)
+        if len(paths) != 1 or paths[0].undetermined:
+            raise AnalysisBroken("%s: evaluation not determined: %s" % (fn.name, [q.undetermined[:1] for q in paths]))
+        q = paths[0]
+        norm = []
+        for s_ in seq:
+            if s_[0] == "add":
+                a2 = s_[2].what if isinstance(s_[2], Ptr) else s_[2]
+                norm.append(("add", s_[1], a2))
+            else:
+                norm.append(s_)
+        out = [t[2] for t in q.stores("*" + fn.params[1]["n"])] if len(fn.params) > 1 else []
+        ok = norm == want and q.ret == 0 and (len(fn.params) == 1 or out == [Ptr("OUTER")])
+        chk.ob("C06.hmac", fn.name, ok,
+               "expected hashing sequence %s%s; source: %s, result %s, status %s" % (want, " and the outer hash handed out" if len(fn.params) > 1 else "", norm, out, q.ret),
+               loc=fn.loc(), fn=fn)
